@@ -21,6 +21,9 @@ CONSTANTS
  DevInplaceInput = FALSE
  DevMoveBeforeClose = FALSE
  DevRouteDiscard = FALSE
+ DevStageFallback = FALSE
+ DevBackupSkip = FALSE
+ EnvInits <- MCEnvInits
 INVARIANT NoLoss
 INVARIANT BackupResolves
 CHECK_DEADLOCK FALSE
